@@ -309,6 +309,13 @@ def main(argv=None):
         if capped:
             break
     os.environ['PYTHONHASHSEED'] = hash_seeds[0]
+    if (len(per_pass) == 2 and not capped
+            and getattr(mod, 'HASH_SEED_COMPARE', 'counts') == 'labels'):
+        # explicit-state searches: how many histories are merged into one
+        # state may differ between the passes; the passes are compared on the
+        # SET of outcome labels (a behaviour that depends on the hash seed
+        # shows up as a label one pass does not have)
+        per_pass = [dict((k, 1) for k in pp) for pp in per_pass]
     if len(per_pass) == 2 and not capped and per_pass[0] != per_pass[1]:
         diff = sorted(k for k in set(per_pass[0]) | set(per_pass[1])
                       if per_pass[0].get(k) != per_pass[1].get(k))
